@@ -342,6 +342,47 @@ example : fmtVal 6 [("a", .list [.str "x", .int 1])] (.str "{a}") = .ok (.list [
   that TypeError. The tree-level claims hold for it too (Props/Lemmas/C09_Faithful.lean); `C09F.WfPy` is the
   representation invariant by Python equality, `C09F.KeysHashF` "every key / member is hashable". -/
 
+/-! ### special tags are formatted WHATEVER their payload
+
+  `SpecialTagDirective.__bool__` makes a tag with an empty / zero / false / null payload a FALSY object. The
+  formatter dispatches on the TYPE of what it reaches, never on its truth value: an empty `!sic` is the empty
+  string, `!jsonify []` is the text `[]`; no special tag ever comes back as itself from its own position. (The
+  models have no truth value for an arbitrary leaf object at all: `fmt_nonstring_leaf_id` holds for every
+  `.obj`, so a leaf whose `bool()` raises or has an effect is, in the model, just a leaf.) -/
+
+/-- `!sic` gives its literal for every payload, the empty one included. -/
+theorem fmt_sic_any_payload (fuel : Nat) (ctx : Ctx) (isRec : Bool) (s : String) :
+    fmtIter (fuel + 1) ctx isRec (.sic s) = .ok (.str s) := by
+  simp [fmtIter]
+
+/-- Whatever formatting a `!sic` / `!jsonify` returns is a string: the tag object never passes through. -/
+theorem fmt_special_never_passes_through (fuel : Nat) (ctx : Ctx) (isRec : Bool) (v r : Val)
+    (hv : (∃ s, v = .sic s) ∨ (∃ w, v = .jsonify w)) (h : fmtIter fuel ctx isRec v = .ok r) : ∃ s, r = .str s := by
+  cases fuel with
+  | zero => simp [fmtIter] at h
+  | succ n =>
+    rcases hv with ⟨s, rfl⟩ | ⟨w, rfl⟩
+    · simp only [fmtIter] at h
+      cases h
+      exact ⟨s, rfl⟩
+    · simp only [fmtIter] at h
+      split at h
+      · cases h
+      · split at h
+        · rename_i s _
+          cases h
+          exact ⟨s, rfl⟩
+        · cases h
+
+/-- the falsy payloads, one by one (the demo of the seeded change C09-5) -/
+example : fmtVal 4 [] (.sic "") = .ok (.str "") ∧
+    fmtVal 4 [] (.jsonify (.list [])) = .ok (.str "[]") ∧ fmtVal 4 [] (.jsonify (.dict [])) = .ok (.str "{}") ∧
+    fmtVal 4 [] (.jsonify (.int 0)) = .ok (.str "0") ∧ fmtVal 4 [] (.jsonify (.bool false)) = .ok (.str "false") ∧
+    fmtVal 4 [] (.jsonify .none) = .ok (.str "null") ∧ fmtVal 4 [] (.jsonify (.str "")) = .ok (.str "\"\"") ∧
+    fmtVal 8 [("a", .str "A")] (.list [.sic "", .jsonify (.list []), .str "{a}"]) =
+      .ok (.list [.str "", .str "[]", .str "A"]) := by
+  refine ⟨?_, ?_, ?_, ?_, ?_, ?_, ?_, ?_⟩ <;> decide +kernel
+
 /-- Kind preservation: same constructor at every container node, children formatted pair by pair / member by
     member, dicts and sets built by Python's insertion. -/
 theorem faithful_kind_preserved (fuel : Nat) (ctx : Ctx) (isRec : Bool) (v r : Val)
